@@ -399,7 +399,7 @@ def arch_snapshot(c):
 
 class Step(object):
     __slots__ = ('op', 'kind', 'pre_mem', 'pre_arch', 'pre_info', 'post_mem', 'post_arch', 'post_info',
-                 'result', 'exc', 'evals', 'key', 'key_exc', 'args', 'kwds', 'expected', 'expected_exc', 'rseed', 'extra')
+                 'result', 'exc', 'evals', 'key', 'key_exc', 'args', 'kwds', 'expected', 'expected_exc', 'rseed', 'extra', 'session')
 
     def __init__(self, **kw):
         for s in self.__slots__:
@@ -473,6 +473,10 @@ def apply_op(sess, op, trace, observe=True, prev=None):
                 random.seed(rs)
                 st.result = f(*a, **k)
             elif kind == 'lookup':
+                try:
+                    st.extra = f.key(*a, **k) in cache     # residency as the cache object itself sees it
+                except Exception:
+                    st.extra = None
                 st.result = f.lookup(*a, **k)
             else:
                 st.result = f.key(*a, **k)
@@ -608,7 +612,7 @@ def run_history(case, root=None, ops=None, fork_check=None):
                 prev = None
                 continue
             prev = apply_op(sess, op, tr, prev=prev)
-            prev.extra = len(sessions) - 1
+            prev.session = len(sessions) - 1
         for x in sessions:
             _close(x.cache)
         return tr
